@@ -2,7 +2,9 @@
 PROP = "C05"
 LEVEL = "other"
 EXPLANATION = 'bounded stand-in: sequences of parse requests on one parser vs fresh parsers; argv list, raw args and format listings compared before/after'
-TARGETS = []
+from .C05_structural import structural  # noqa: F401
+from . import token_contracts as tc
+TARGETS = [tc.M_ARGV + ":ArgvArgs.__init__"]
 LEMMAS = []
 try:
     from .C05_bounded import bounded, BOUNDED_RULE  # noqa: F401
